@@ -83,6 +83,16 @@ def run_r1(ctx, rule):
                 e = sy.rvalue(f.blocks[bi]["stmts"][si]["rv"])
                 if mentions(e, lambda x: x[0] == "v" and x[2] == "Err" and x[1][0] == "call" and x[1][1] == bb):
                     stored = True
+                # `self.io_error = sink_call(..).err()` (only reached while io_error is None: the guard above)
+                if e[0] == "call" and norm(e[2]).endswith("Result::err") and len(e[3]) == 1 and e[3][0][0] == "call" and e[3][0][1] == bb:
+                    stored = True
+            elif f2 is f and name == "io_error" and si is None:
+                # `self.io_error = sink_call(..).err()` (only reached while io_error is None: the guard above)
+                t2 = f.term(bi)
+                if norm(util.cname(t2)).endswith("Result::err") and t2["args"]:
+                    a = sy.operand(t2["args"][0])
+                    if a[0] == "call" and a[1] == bb:
+                        stored = True
         rule.check(stored, "%s/sink-error-parked" % short(nid), "the error of the sink call is parked in io_error", f.loc(bb))
     rule.check(kinds == {"flush", "direct"} and len(seen) >= 2, "sink/sites", "the sink is written to by a flush of the whole buffer and by the direct write of an oversized slice, and by nothing else (found %s in %s)" % (sorted(kinds), sorted(short(x) for x in seen)))
     # io_error stores: only from a sink error, or take()
